@@ -311,8 +311,7 @@ _SERVER = [None]
 
 
 def pred(case, stats):
-    if _SERVER[0] is None:
-        _SERVER[0] = sim.TcpServer(SPECS)
+    _SERVER[0] = sim.per_process('c06', lambda: sim.TcpServer(SPECS))
     nt = classify(case, None)
     stats.case(case, nontrivial=nt, classes=['final:' + case['final']['kind'], 'depth:%d' % case['depth'],
                                              'len:%d' % min(len(case['requests']), 10)] +
